@@ -134,8 +134,14 @@ deriving DecidableEq, Repr
 def Row.ofPair (p : Coef × Rat) : Row := ⟨p.1, p.2⟩
 
 /-- `SymmetryElement(symms)` (not centric): one row per component string -/
-def parseOp (symms : List (List Char)) : Except Err (List Row) :=
-  symms.mapM fun s => (parseComp s).map Row.ofPair
+def parseOp : List (List Char) → Except Err (List Row)
+  | [] => .ok []
+  | s :: r =>
+    match parseComp s with
+    | .error e => .error e
+    | .ok p => match parseOp r with
+      | .error e => .error e
+      | .ok l => .ok (Row.ofPair p :: l)
 
 /-! ### Model: `to_shelxl` -/
 
